@@ -194,30 +194,48 @@ theorem C05_exit_status (inp : Input)
   rcases h with h | h | ⟨steps, h | h | h⟩ <;> subst h <;> simp [exitOf, mainExit, Model.Cli.Cfg.fixed]
 
 open Model.Cli in
-/-- status, diagnostic and standard output agree with `Spec.Cli` for every input whose output is echoed directly
-(no `ob_start`): in particular everything echoed before the failure is on standard output when the process ends -/
+/-- status, diagnostic and standard output agree with `Spec.Cli` for every input: everything echoed before the end —
+directly or into `ob_start` buffers that are still open — is on standard output when the process ends, however it
+ends (a Go panic aborts the runtime and flushes nothing: there the claim is for directly echoed output) -/
 theorem C05_exit_status_refines (inp : Input)
-    (hd : ∀ steps e, inp = .script steps e → Spec.Cli.Direct steps) :
+    (hd : ∀ steps, inp = .script steps .goPanic → Spec.Cli.Direct steps) :
     ((exitOf Model.Cli.Cfg.fixed inp).code ≠ 0 ↔ Spec.Cli.mustFail inp = true) ∧
     (exitOf Model.Cli.Cfg.fixed inp).diag = Spec.Cli.wantsDiag inp ∧
     (exitOf Model.Cli.Cfg.fixed inp).fd1 = Spec.Cli.stdout inp := by
-  have direct : ∀ (steps : List Step) (out : List Nat), Spec.Cli.Direct steps →
-      (steps.foldl step ⟨out, []⟩).fd1 = Spec.Cli.visible steps out [] ∧ (steps.foldl step ⟨out, []⟩).bufs = [] := by
+  have vis : ∀ (steps : List Step) (out : List Nat) (bufs : List (List Nat)),
+      flushed (steps.foldl step ⟨out, bufs⟩) = Spec.Cli.visible steps out bufs := by
     intro steps
     induction steps with
-    | nil => intro out _; simp [Spec.Cli.visible]
+    | nil => intro out bufs; simp [flushed, Spec.Cli.visible]
+    | cons s r ih =>
+      intro out bufs
+      cases s with
+      | echo m => cases bufs <;> simp [List.foldl, step, Spec.Cli.visible, ih]
+      | obStart => simp [List.foldl, step, Spec.Cli.visible, ih]
+      | obGetClean => simp [List.foldl, step, Spec.Cli.visible, ih]
+  have direct : ∀ (steps : List Step) (out : List Nat), Spec.Cli.Direct steps →
+      (steps.foldl step ⟨out, []⟩).bufs = [] := by
+    intro steps
+    induction steps with
+    | nil => intro out _; rfl
     | cons s r ih =>
       intro out hdir
       obtain ⟨m, rfl⟩ := hdir s (List.mem_cons_self ..)
-      have := ih (out ++ [m]) (fun s hs => hdir s (List.mem_cons_of_mem _ hs))
-      simpa [List.foldl, step, Spec.Cli.visible] using this
+      simpa [List.foldl, step] using ih (out ++ [m]) (fun s hs => hdir s (List.mem_cons_of_mem _ hs))
   cases inp with
   | missing => simp [exitOf, mainExit, Model.Cli.Cfg.fixed, Spec.Cli.mustFail, Spec.Cli.wantsDiag, Spec.Cli.stdout]
   | parseError => simp [exitOf, mainExit, Model.Cli.Cfg.fixed, Spec.Cli.mustFail, Spec.Cli.wantsDiag, Spec.Cli.stdout]
   | script steps e =>
-    have hv := (direct steps [] (hd steps e rfl)).1
-    cases e <;>
-      simp [exitOf, mainExit, Model.Cli.Cfg.fixed, Spec.Cli.mustFail, Spec.Cli.wantsDiag, Spec.Cli.stdout, runSteps, hv]
+    have hv := vis steps [] []
+    cases e
+    case goPanic =>
+      have hb := direct steps [] (hd steps rfl)
+      have : (runSteps steps).fd1 = Spec.Cli.visible steps [] [] := by
+        rw [← hv]; simp [flushed, runSteps, hb]
+      simp [exitOf, Spec.Cli.mustFail, Spec.Cli.wantsDiag, Spec.Cli.stdout, this]
+    all_goals
+      simp [exitOf, atExit, mainExit, Model.Cli.Cfg.fixed, Spec.Cli.mustFail, Spec.Cli.wantsDiag, Spec.Cli.stdout,
+        runSteps, hv]
 
 /-- an uncaught throwable at the end of `Model.Exc.run` is a failing process -/
 theorem C05_uncaught_run_fails (G : Graph) (cfg : Cfg) (p : Block) (x : Thrown) (steps : List Model.Cli.Step)
@@ -230,10 +248,11 @@ theorem C05_exit_status_pinned_counterexample :
     (Model.Cli.exitOf Model.Cli.Cfg.pinned .parseError).code = 0 ∧
     (Model.Cli.exitOf Model.Cli.Cfg.pinned .missing).code = 0 := by decide
 
-/- Full statement of "after flushing earlier output" would drop the hypothesis `Direct`. It is false: text echoed
-   after `ob_start()` and still buffered never reaches standard output (known finding C05-ob-buffers-never-flushed). -/
-theorem C05_flush_counterexample :
-    (Model.Cli.exitOf Model.Cli.Cfg.fixed (.script [.echo 1, .obStart, .echo 2] .uncaught)).fd1 = [1] ∧
+/-- before fix C05-flush-buffers-before-exit the `os.Exit` paths lost what was still in an `ob_start` buffer:
+`echo 1; ob_start(); echo 2; throw …` printed only `1` -/
+theorem C05_flush_pinned_counterexample :
+    (Model.Cli.exitOf ⟨true, false⟩ (.script [.echo 1, .obStart, .echo 2] .uncaught)).fd1 = [1] ∧
+    (Model.Cli.exitOf Model.Cli.Cfg.fixed (.script [.echo 1, .obStart, .echo 2] .uncaught)).fd1 = [1, 2] ∧
     Spec.Cli.stdout (.script [.echo 1, .obStart, .echo 2] .uncaught) = [1, 2] := by decide
 
 /-! ## non-vacuity -/
@@ -284,5 +303,8 @@ example : finallyPhase 1 true (fun t => (.ret 5, t)) (.thr .internal, []) = (.re
 example : Spec.Cli.Direct [.echo 1, .echo 2] := by
   intro s hs; simp at hs; rcases hs with rfl | rfl <;> exact ⟨_, rfl⟩
 example : Model.Cli.exitOf Model.Cli.Cfg.fixed (.script [.echo 1, .echo 2] .uncaught) = ⟨[1, 2], true, 1⟩ := by decide
+-- nested buffers, one taken back by ob_get_clean, exit(3): 1, then the outer buffer's 2, then 4 (3 went back to the script)
+example : Model.Cli.exitOf Model.Cli.Cfg.fixed (.script [.echo 1, .obStart, .echo 2, .obStart, .echo 3, .obGetClean, .echo 4] (.exit 3))
+    = ⟨[1, 2, 4], false, 3⟩ := by decide
 
 end C05
